@@ -7,6 +7,7 @@
 //                              m:<hex>                  handle_msg on the message decoded from these octets (with the connection's config)
 //                              E:<EventName>:<hex>      inject BgpOpen / BgpOpenWithDelayOpenTimerRunning with this OPEN regardless of the timer
 //                              U:<n>:<hex>              handle_msg on this message n times back to back (a burst; stops at the first error)
+//                              G                        set_negotiated_config(negotiated().clone()): applying what was negotiated once more
 //                              A:<hex>                  a new connection: the peer writes these octets, Session::attach_stream gets the socket
 //                              t:<hex> / c              the peer writes these octets / closes, the session runs one tick
 //        after every step one field: state,crc,timers,conn,four,addpath | out | app | result
@@ -115,6 +116,11 @@ async fn fsm_case(delay_open: bool, hold: u16, ap: &str, steps: &str) -> String 
                     let b = Bytes::from(unhex(parts[1]));
                     let sc = s.verif_connection_mut().map(|c| c.session_config_mut().clone()).unwrap_or(routecore::bgp::message::SessionConfig::modern());
                     match BgpMsg::from_octets(b, Some(&sc)) { Ok(m) => s.verif_handle_msg(m).await.map_err(|_| ()), Err(_) => Err(()) }
+                }
+                "G" => {
+                    // the negotiated configuration applied once more (Session::set_negotiated_config is public): a no-op
+                    if let Some(n) = s.negotiated().cloned() { s.set_negotiated_config(n); }
+                    Ok(())
                 }
                 "U" => {
                     // a burst: the same message n times back to back; the application takes messages off its queue only when the
